@@ -125,7 +125,8 @@ func runC16(c *core.Ctx) {
 				n++
 				c.Check(core.Path(h) == "height" && moveZero, "C16.due", key, s.Pos(), "bus forwarder passes its height through, no move target", "bus forwarder alters the height or sets a move target")
 			case core.PkgOf(fn) == core.PkgState+"/candidates":
-				n++
+				// (a site inside a helper stands for each place the helper is called from)
+				n += callWeight(c, fn)
 				ok, d := isBlockPlusPeriod(h, "GetUnbondPeriod")
 				c.Check(ok, "C16.due", key, s.Pos(), "protocol unbond (removal / kick / byzantine) freezes until "+d, "protocol unbond freezes until something other than height+GetUnbondPeriod(): "+d)
 			default:
@@ -517,4 +518,25 @@ func checkFieldReadyBeforeRead(c *core.Ctx, rule string, fn *ssa.Function, typ *
 			"this call reads blockchain."+field+" ("+reaches+") before "+fn.Name()+" has finished building it for the current block (a write at "+late+" comes later, or none comes before): the callee works with the previous block's data")
 	}
 	return n
+}
+
+// callWeight: for an unexported helper that belongs to one function's group, the number of places
+// it is called from (two identical loop bodies merged into one helper still count twice);
+// 1 for every other function.
+func callWeight(c *core.Ctx, fn *ssa.Function) int {
+	if fn.Object() == nil || fn.Object().Exported() || c.GroupRoot(fn) == fn {
+		return 1
+	}
+	k := 0
+	for _, cl := range c.CG().Callers(fn) {
+		for _, s := range core.Sites(cl) {
+			if s.Common.StaticCallee() == fn {
+				k++
+			}
+		}
+	}
+	if k < 1 {
+		k = 1
+	}
+	return k
 }
